@@ -112,7 +112,7 @@ fn run(ctx: &Ctx, rep: &Report) {
     let mut releases = comps.clone();
     releases.push(String::new());
     let epochs = ["", "0", "1", "10", "12", "100", "2147483647", "2147483648", "4294967290", "4294967295"];
-    let arches = ["x", "x86_64", "noarch", "a1", ""];
+    let arches = ["x", "x86_64", "noarch", "a1", "", "ppc64", "sh4", "mips64", "ia64", "fc38", "el7"];
     rep.count("names", names.len() as u64);
     rep.count("version_release_components", comps.len() as u64);
 
